@@ -224,3 +224,8 @@ _add_family(globals(), _ru, 'reuseupd', _ru.oracle, share=0.05)
 from harness import declorder as _do                    # noqa: E402
 from harness.mixins import add_family as _add_family    # noqa: E402,F811
 _add_family(globals(), _do, 'declorder', _do.oracle, share=0.04)
+
+
+# initial values proposed by the processes of a composite: a function of the composite, not of listing order
+from harness import initorder as _io                    # noqa: E402
+_add_family(globals(), _io, 'initorder', _io.oracle, share=0.03)
